@@ -89,6 +89,7 @@ func (tr *Translator) runBody(ct *Contract, full bool) {
 		return
 	}
 	c.addObl(&Obligation{Name: ct.Qual + "#exit-reach", Kind: "exit-reach", Guard: out.guard, Goal: "true", ExpectSat: true, Func: ct.Qual})
+	tr.applyGhostUpdates(ct, f, out, args, res)
 	for i, cl := range ct.Ensures {
 		env := tr.contractEnv(ct, ct.PostNames, append(append([]Val{}, args...), res...), out, f.entry)
 		g := tr.specBool(cl, env)
@@ -324,5 +325,89 @@ func (tr *Translator) assumeAxioms() {
 		}
 		c.softAxiom(owner, g)
 		c.note("trusted axiom about library functions: " + ax.Name + ": " + ax.Clause.Text)
+	}
+}
+
+// applyGhostUpdates: the ghost state chosen at exit (witness of the abstract view in closed form)
+func (tr *Translator) applyGhostUpdates(ct *Contract, f *Frame, out *State, args, res []Val) {
+	c := tr.c
+	it := c.it
+	if len(ct.Ghosts) == 0 {
+		return
+	}
+	base := out.clone() // all bodies are evaluated against the real final state and the old ghost state
+	type upd struct {
+		key string
+		val Sx
+	}
+	var upds []upd
+	for _, g := range ct.Ghosts {
+		if g.Clause.Expr == nil {
+			c.unsupp("ghost clause not type-checked: %s", g.Clause.Text)
+			continue
+		}
+		env := tr.contractEnv(ct, ct.PostNames, append(append([]Val{}, args...), res...), base, f.entry)
+		env.info = g.Clause.Info
+		var target ast.Expr
+		var value ast.Expr
+		if g.All {
+			value = g.Clause.Expr
+		} else {
+			cl, ok := g.Clause.Expr.(*ast.CompositeLit)
+			if !ok || len(cl.Elts) != 2 {
+				c.unsupp("bad ghost clause %s", g.Clause.Text)
+				continue
+			}
+			target, value = cl.Elts[0], cl.Elts[1]
+		}
+		fl, isLit := value.(*ast.FuncLit)
+		switch {
+		case g.All && isLit:
+			key := "X:" + g.Name
+			tr.regKey(key, []Sx{"Int"}, it.isort())
+			na := c.declConst("G_"+g.Name, tr.memSortFull(key))
+			c.fresh++
+			bv := fmt.Sprintf("e!g%d", c.fresh)
+			pname := fl.Type.Params.List[0].Names[0].Name
+			ne := env.with(map[string]Val{pname: {t: bv, typ: env.typeOf(fl.Type.Params.List[0].Type)}})
+			ne.qdepth = 1
+			body := ne.expr(fl.Body.List[0].(*ast.ReturnStmt).Results[0]).t
+			c.softAxiom(na, fmt.Sprintf("(forall ((%s Int)) (! (= (select %s %s) %s) :pattern ((select %s %s))))", bv, na, bv, body, na, bv))
+			upds = append(upds, upd{key, na})
+		case !g.All && isLit:
+			key := "XS:" + g.Name
+			tr.regKey(key, []Sx{"Int", it.isort()}, "Int")
+			p := env.expr(target).t
+			inner := sx("Array", it.isort(), "Int")
+			na := c.declConst("G_"+g.Name, inner)
+			c.fresh++
+			bv := fmt.Sprintf("i!g%d", c.fresh)
+			pname := fl.Type.Params.List[0].Names[0].Name
+			ne := env.with(map[string]Val{pname: {t: bv, typ: types.Typ[types.Int]}})
+			ne.qdepth = 1
+			body := ne.expr(fl.Body.List[0].(*ast.ReturnStmt).Results[0]).t
+			c.softAxiom(na, fmt.Sprintf("(forall ((%s %s)) (! (= (select %s %s) %s) :pattern ((select %s %s))))", bv, it.isort(), na, bv, body, na, bv))
+			upds = append(upds, upd{key, sx("store", tr.memGet(base, key), p, na)})
+		case !g.All:
+			key := "X:" + g.Name
+			tr.regKey(key, []Sx{"Int"}, it.isort())
+			p := env.expr(target).t
+			v := env.expr(value)
+			upds = append(upds, upd{key, sx("store", tr.memGet(base, key), p, v.t)})
+		default:
+			c.unsupp("bad ghost clause %s", g.Clause.Text)
+		}
+	}
+	for _, u := range upds {
+		cur := tr.memGet(out, u.key)
+		val := u.val
+		// several pointwise updates of the same key compose
+		if strings.HasPrefix(val, "(store "+tr.memGet(base, u.key)+" ") && cur != tr.memGet(base, u.key) {
+			val = strings.Replace(val, "(store "+tr.memGet(base, u.key)+" ", "(store "+cur+" ", 1)
+		}
+		out.mem[u.key] = c.define("H_"+u.key, tr.memSortFull(u.key), val)
+		for _, w := range tr.writeLog {
+			w[u.key] = true
+		}
 	}
 }
